@@ -177,8 +177,13 @@ func (r *Reader) decodeG3ScanLine1D() {
 
 	numEOL := 0
 
-	for xpos < r.Columns && r.err == nil {
+	// a make-up code is always followed by a terminating code, even when the
+	// make-up code alone completes the row
+	pending := false
+
+	for (xpos < r.Columns || pending) && r.err == nil {
 		runLength, state := r.decodeRun(isWhite)
+		pending = state == S_MakeUpW || state == S_MakeUpB || state == S_MakeUp
 
 		runLength = min(runLength, r.Columns-xpos)
 		r.fillRowBits(xpos, xpos+runLength, isWhite != r.BlackIs1)
